@@ -90,10 +90,7 @@ def req_assign(sibs):
     return 'assign %d %s' % (len(sibs), sib_toks(sibs))
 
 
-def run_model(requests):
-    """one answer line per request line"""
-    if not requests:
-        return []
+def _run_chunk(requests):
     r = subprocess.run([DRIVER], input='\n'.join(requests) + '\n', capture_output=True, text=True)
     out = r.stdout.split('\n')
     if out and out[-1] == '':
@@ -101,6 +98,20 @@ def run_model(requests):
     if r.returncode != 0 or len(out) != len(requests):
         raise RuntimeError('driver_names failed: rc=%s, %d answers for %d requests: %s' % (r.returncode, len(out), len(requests), r.stderr[-500:]))
     return out
+
+
+def run_model(requests, jobs=8):
+    """one answer line per request line; large batches are sharded over several driver processes"""
+    if not requests:
+        return []
+    if len(requests) < 2000 or jobs <= 1:
+        return _run_chunk(requests)
+    from concurrent.futures import ThreadPoolExecutor
+    size = (len(requests) + jobs * 4 - 1) // (jobs * 4)
+    chunks = [requests[i:i + size] for i in range(0, len(requests), size)]
+    with ThreadPoolExecutor(max_workers=jobs) as ex:
+        parts = list(ex.map(_run_chunk, chunks))
+    return [x for part in parts for x in part]
 
 
 def split_assign_answer(line):
